@@ -31,6 +31,9 @@ func CheckC17(run *Run) {
 	// route isolation (server) and call sequences (client): catalogues of their own, see c17_families.go
 	isoReq, seqReq := RouteIsolationCatalogue(), ClientHistoryCatalogue()
 	reqs = append(reqs, isoReq, seqReq)
+	// registration histories (server options of one Register call never reach another): c17_reg.go
+	regReq := RegistrationCatalogue()
+	reqs = append(reqs, regReq)
 	rng := rand.New(rand.NewSource(run.Seed + 1717))
 	multisets, size := 6, 60
 	if run.Tier == "thorough" {
@@ -38,6 +41,7 @@ func CheckC17(run *Run) {
 	}
 	os.Setenv("VERIF_RACE", "1")
 	s := NewSession(run, reqs)
+	c17InjectRegShim(s, regReq)
 	s.BuildRuntime(false)
 	os.Unsetenv("VERIF_RACE")
 	vg := &ValueGen{Rng: rng}
@@ -61,7 +65,7 @@ func CheckC17(run *Run) {
 	}
 	var batches []*batch
 	for i, r := range reqs {
-		if !s.InRunner[r.ID] || r == isoReq || r == seqReq {
+		if !s.InRunner[r.ID] || r == isoReq || r == seqReq || r == regReq {
 			continue
 		}
 		g := s.Gens[i]
@@ -243,11 +247,17 @@ func CheckC17(run *Run) {
 		run.Results = append(run.Results, cr)
 	}
 	// per-route configuration isolation; history (in)dependence of shared clients and package-level state
-	for _, r := range []*Request{isoReq, seqReq} {
+	for _, r := range []*Request{isoReq, seqReq, regReq} {
 		if !s.InRunner[r.ID] {
 			out := "a Go plugin failed on it"
 			if v := s.Verdict[r.ID]; v != nil {
 				out = v.Output
+			} else if g := s.ByID[r.ID]; g != nil {
+				for _, pl := range []string{"go-http", "go-client"} {
+					if pr := g.Results[pl]; pr != nil && pr.Exit != "ok" {
+						out += fmt.Sprintf(" [%s: %s %s %s]", pl, pr.Exit, pr.Error, tail(pr.Stderr, 400))
+					}
+				}
 			}
 			run.BuildFailure(fmt.Errorf("the emitted Go code of catalogue %s does not build: %s", r.ID, out))
 		}
@@ -259,6 +269,8 @@ func CheckC17(run *Run) {
 	seqResults, seqStderr := c17Sequences(run, s, seqReq, s.ByID[seqReq.ID], rand.New(rand.NewSource(run.Seed+171717)))
 	run.Results = append(run.Results, seqResults...)
 	stamp(run, "call sequences done")
+	run.Results = append(run.Results, c17Registrations(run, s, regReq, rand.New(rand.NewSource(run.Seed+17171)))...)
+	stamp(run, "registration histories done")
 	if n := strings.Count(seqStderr, "WARNING: DATA RACE"); n > 0 {
 		races += n
 		stderr += seqStderr
